@@ -9,8 +9,10 @@ import (
 	"go/token"
 	"go/types"
 	"math/rand"
+	"net/url"
 	"sort"
 	"strings"
+	"time"
 
 	"github.com/octohelm/gengo/pkg/gengo"
 	"github.com/octohelm/gengo/pkg/gengo/snippet"
@@ -19,6 +21,8 @@ import (
 
 	appsv1 "verif/fixtures/apps/v1"
 	corev1 "verif/fixtures/core/v1"
+	"verif/fixtures/fa"
+	"verif/fixtures/fb"
 	"verif/fixtures/vt"
 	"verif/internal/core"
 	"verif/typgen"
@@ -636,6 +640,61 @@ func (p *prop) Run(c core.Case, w *core.Worker) core.Result {
 			}
 			p.runScenario(&res, sc)
 		}
+		runExposeOfInstantiations(&res)
 	}
 	return res
+}
+
+// runExposeOfInstantiations: PkgExposeFor / PkgExposeOf of generic instantiations whose type arguments live in other
+// packages than the generic type. Only the type's own package is referenced by the rendered text (`fb.List`), so only
+// that package may be imported (seeded change C03-m: the type arguments were walked - and registered - before being cut).
+func runExposeOfInstantiations(res *core.Result) {
+	const fap, fbp = "verif/fixtures/fa", "verif/fixtures/fb"
+	for _, tc := range []struct {
+		desc    string
+		sn      snippet.Snippet
+		pkg     string
+		exposed string
+		into    string
+	}{
+		{"PkgExposeFor[fb.List[fa.T]]", snippet.PkgExposeFor[fb.List[fa.T]](), fbp, "List", target},
+		{"PkgExposeFor[fa.Pair[fb.T, bytes.Buffer]]", snippet.PkgExposeFor[fa.Pair[fb.T, bytes.Buffer]](), fap, "Pair", target},
+		{"PkgExposeFor[fb.List[fa.Pair[fa.T, url.URL]]]", snippet.PkgExposeFor[fb.List[fa.Pair[fa.T, url.URL]]](), fbp, "List", target},
+		{"PkgExposeOf(&fa.List[fb.S]{})", snippet.PkgExposeOf(&fa.List[fb.S]{}), fap, "List", target},
+		{"PkgExposeOf(fb.Pair[fa.U, time.Duration]{})", snippet.PkgExposeOf(fb.Pair[fa.U, time.Duration]{}), fbp, "Pair", target},
+		{"PkgExposeFor[fa.List[fb.T]] rendered into fa itself", snippet.PkgExposeFor[fa.List[fb.T]](), fap, "List", fap},
+		{"PkgExposeFor[fb.Pair[fa.T, fa.U]](\"Make\")", snippet.PkgExposeFor[fb.Pair[fa.T, fa.U]]("Make"), fbp, "Make", target},
+	} {
+		tr := namer.NewDefaultImportTracker()
+		var buf bytes.Buffer
+		w := gengo.NewSnippetWriter(&buf, namer.NameSystems{"raw": namer.NewRawNamer(tc.into, tr)})
+		pk, pv, _ := core.Guard(func() { w.Render(tc.sn) })
+		res.Evals++
+		res.Inc("expose_of_generic_instantiations_rendered")
+		res.NonTrivial("expose-inst|" + tc.desc)
+		if pk {
+			res.Fail("expose-instantiation", "panic", fmt.Sprintf("%s: rendering panicked: %v", tc.desc, pv), nil)
+			continue
+		}
+		imps := tr.Imports()
+		want := map[string]bool{}
+		wantText := tc.exposed
+		if tc.pkg != tc.into {
+			want[tc.pkg] = true
+			wantText = imps[tc.pkg] + "." + tc.exposed
+		}
+		for pth := range imps {
+			if !want[pth] {
+				res.Fail("expose-instantiation", "unused import", fmt.Sprintf("%s rendered %q but registered the import %q, which the text never references (imports: %v)", tc.desc, buf.String(), pth, imps), nil)
+			}
+		}
+		for pth := range want {
+			if _, ok := imps[pth]; !ok {
+				res.Fail("expose-instantiation", "missing import", fmt.Sprintf("%s rendered %q without registering %q (imports: %v)", tc.desc, buf.String(), pth, imps), nil)
+			}
+		}
+		if buf.String() != wantText {
+			res.Fail("expose-instantiation", "text", fmt.Sprintf("%s rendered %q, want %q (imports: %v)", tc.desc, buf.String(), wantText, imps), nil)
+		}
+	}
 }
